@@ -214,3 +214,41 @@ Proof.
   - pose proof (holder_not_waiting_moves s c IC P Hf Hmax) as Hw. rewrite E in Hw. specialize (Hw eq_refl). discriminate.
   - right. left. exists r. reflexivity.
 Qed.
+
+(** ** the termination statement for every reachable state *)
+Lemma replay_is_exec s ls s' : replay s ls = Some s' -> s' = exec s ls.
+Proof.
+  revert s. induction ls as [|l ls IH]; intros s H; simpl in *; [congruence|].
+  destruct (step s l) eqn:E; [apply IH; assumption | discriminate].
+Qed.
+
+Theorem every_close_returns n u hon f12 sched :
+  let s := exec (init_u n u hon true true f12 true) sched in
+  let K := ids_bound sched in
+  (* every run of system labels from s is finite: at most [mu K s] steps *)
+  (forall ls s', Forall (fun l => sys_label l = true) ls -> replay s ls = Some s' -> length ls <= mu K s) /\
+  (* and a maximal one ends with every Close call returned, or waiting legitimately *)
+  (forall ls s', Forall (fun l => sys_label l = true) ls -> replay s ls = Some s' -> sys_maximal s' ->
+     forall c,
+       cp s' c = CNone \/ (exists r, cp s' c = CRet r) \/
+       (cp s' c = CWait /\ legitimately_held s') \/
+       (cp s' c = CWant /\ exists c', cp s' c' = CWait /\ legitimately_held s')).
+Proof.
+  intros s K.
+  assert (I : Inv s) by apply Inv_reach_u.
+  assert (HH : hbounded s) by (apply hbounded_exec, hbounded_init_u).
+  assert (HB : bounded K s).
+  { apply bounded_exec; [|apply le_n]. apply bounded_mono with (K := 0); [apply bounded_init_u | lia]. }
+  split.
+  - intros ls s' Hall Hr. destruct (system_run_bounded K ls s s' I HH HB Hall Hr) as (Hlen & _). lia.
+  - intros ls s' Hall Hr Hmax.
+    pose proof (replay_is_exec s ls s' Hr) as Es. unfold s in Es. rewrite <- exec_app in Es.
+    set (s0 := init_u n u hon true true f12 true) in *.
+    destruct (flags_exec s0 (sched ++ ls)) as (F5 & F6 & _). rewrite <- Es in F5, F6. simpl in F5, F6.
+    apply maximal_state; try assumption.
+    + rewrite Es. apply Inv_reach_u.
+    + rewrite Es. apply InvS_exec; [apply Inv_init_u | apply InvS_init_u].
+    + rewrite Es. apply rh_plain_exec, rh_plain_init_u.
+    + rewrite Es, rh_isclosed_exec. reflexivity.
+    + rewrite Es, fix16_exec. reflexivity.
+Qed.
